@@ -2,8 +2,8 @@
    Only statements, closed by [exact lemma], with Print Assumptions beneath. *)
 From Coq Require Import String List NArith ZArith Bool.
 From J5V.lib Require Import Text Outcome.
-From J5V.model Require Import BclLexer BclParser BclErrpos BclToFile BclFmt.
-From J5V.proofs Require Import BclPosProofs BclLexerProofs BclParserProofs BclErrposProofs BclGenProofs BclBytesProofs BclParseBytesProofs BclToFileProofs BclFragWfProofs BclDepthProofs.
+From J5V.model Require Import BclLexer BclParser BclErrpos BclErrposText BclToFile BclFmt.
+From J5V.proofs Require Import BclPosProofs BclLexerProofs BclParserProofs BclErrposProofs BclGenProofs BclBytesProofs BclParseBytesProofs BclToFileProofs BclFragWfProofs BclDepthProofs BclErrposTextProofs.
 Import ListNotations.
 
 (* [valid_pos data p]: p is the (line, column) of a rune of the input or of its end.
@@ -80,6 +80,13 @@ Print Assumptions C11_collect_first_is_failfast.
 Theorem C11_render_total : forall lines context ds, is_panic (human_all lines context ds) = false.
 Proof. exact human_all_no_panic. Qed.
 Print Assumptions C11_render_total.
+
+(* ... and the text itself: ErrorsWithSource.HumanString(context) as bytes (Position / LIT lines, context lines
+   with %03d numbers and tabs widened, the caret line, Message, the ----- separator), built from the skeleton's
+   result, is always produced — for any diagnostics against any source bytes *)
+Theorem C11_render_text_total : forall input context ds, exists t, human_text_bytes input context ds = Ok t.
+Proof. exact human_text_bytes_ok. Qed.
+Print Assumptions C11_render_text_total.
 
 Theorem C11_full : C11_full_statement.
 Proof.
